@@ -328,6 +328,7 @@ class QueryMixin:
                 else:
                     group_fns.append(self._c_with_alias_fallback(scope, g))
             scope.allow_agg = True
+        scope.alias_first = True
         having_fn = self.c_expr(scope, having) if having is not None else None
         order_fns = None
         if order:
@@ -340,6 +341,7 @@ class QueryMixin:
                 else:
                     f = self.c_expr(scope, e)
                 order_fns.append((f, desc))
+        scope.alias_first = False
         scope.allow_agg = False
         grouped = group is not None or scope.has_agg
         lim = self._c_limit(scope, limit)
